@@ -32,6 +32,30 @@ def table_faults(rows, idx):
     return BFAULTS[idx % 4] if any(r['beads'] == 'failed' for r in rows) else 'none'
 
 
+def _single_job(key):
+    """one row processed alone, in a process of its own that has processed no other row (whatever a run leaves behind in
+    the interpreter - caches, module state - is part of 'the other rows' as far as isolation goes)"""
+    rj, variant, bf = key
+    try:
+        t = W.samples_table([json.loads(rj)], variant=variant)
+        return key, W.process(t, bf)['S1']
+    except Exception as e:  # noqa
+        return key, e
+
+
+def precompute_singles(jobs):
+    keys = set()
+    for idx, rows, expected in jobs:
+        bf, variant = table_faults(rows, idx), idx % 5
+        for i, (r, exp) in enumerate(zip(rows, expected)):
+            if exp['k'] == 'ok':
+                keys.add((json.dumps(r, sort_keys=True), variant + i, bf))
+    with mp.get_context('fork').Pool(min(16, os.cpu_count() or 1), maxtasksperchild=1) as pool:
+        for key, res in pool.imap_unordered(_single_job, sorted(keys), chunksize=1):
+            SINGLE[key] = res
+    return len(keys)
+
+
 def single_run(r, variant, bf):
     key = (json.dumps(r, sort_keys=True), variant, bf)
     if key not in SINGLE:
@@ -310,6 +334,7 @@ def main(chk, replay=None):
     # tables whose beads rows are the reference ones (no beads fault injected)
     rjobs = [j for j in [(i, tables[i][0], tables[i][1]) for i in range(len(tables))]
              if table_faults(j[1], j[0]) == 'none' and (len(j[1]) == 1 or (not chk.quick and len(j[1]) == 2))]
+    chk.extra['single_row_references_in_fresh_processes'] = precompute_singles(jobs)
     with mp.get_context('fork').Pool(min(16, os.cpu_count() or 1)) as pool:
         outs = pool.map(check_table, jobs, chunksize=2)
         bouts = pool.map(check_beads_table, bjobs, chunksize=1)
